@@ -211,7 +211,7 @@ func runCheck(repo, verif, prop, tier string, update bool) int {
 	// unknown: typically machine load) is retried with few queries in parallel
 	// and a much longer limit before it may be reported; a `sat` answer is final.
 	{
-		rsolver, err := newSolver(timeout*10, false, 6)
+		rsolver, err := newSolver(timeout*4, false, 6)
 		if err == nil {
 			rsolver.firstS = timeout * 2
 			for _, r := range reports {
@@ -364,6 +364,17 @@ func runCheck(repo, verif, prop, tier string, update bool) int {
 		for _, eo := range effs {
 			name := eo.Name
 			r := &OblReport{Name: name, Func: name, Kind: eo.Kind, Desc: eo.Desc, Solver: "frame", Pos: eo.Pos, Claimed: true}
+			if eo.Undecided != "" {
+				_, skipped := claimed.skips[name]
+				if skipped || update {
+					r.Claimed, r.Status = false, "unknown"
+					undecided = append(undecided, map[string]string{"name": name, "reason": eo.Undecided})
+					updLines = append(updLines, fmt.Sprintf("skip %s # undecided on reference tree: %s", name, eo.Undecided))
+					effReports = append(effReports, r)
+					continue
+				}
+				eo.Witness = "no longer decidable (was decided on the reference tree): " + eo.Undecided
+			}
 			if eo.OK {
 				r.Status = "unsat"
 				if eo.Kind == "cover" {
@@ -609,7 +620,7 @@ func writeEvidence(verif, prop, tier string, seed int, eng *Engine, fvs []*FuncV
 	os.WriteFile(filepath.Join(verif, "evidence", prop+".json"), data, 0o644)
 }
 
-var effectProps = map[string]bool{"C08": true, "C20": true, "C05": true}
+var effectProps = map[string]bool{"C08": true, "C20": true, "C05": true, "C04": true}
 
 func libScope(eng *Engine) func(string) bool {
 	return func(p string) bool {
@@ -631,6 +642,8 @@ func runEffects(eng *Engine, prop string) []*EffObl {
 		return g.globalWriteObligations(libScope(eng))
 	case "C05":
 		return append(g.recoverObligations(libScope(eng)), g.deadContextObligations()...)
+	case "C04":
+		return append(g.compilePanicObligations(), g.arityObligations()...)
 	}
 	return nil
 }
